@@ -169,6 +169,9 @@ class Facts:
                         env[l] = v0
                     else:
                         env.pop(l, None)
+                elif k in ("ref", "copy_for_deref") and not rv["pl"]["p"] and env.get(rv["pl"]["l"], (None,))[0] in ("variant", "wrap", "fail"):
+                    # `&mut filter` handed to as_mut() / as_ref(): the reference stands for the value it points to
+                    env[l] = env[rv["pl"]["l"]]
                 elif l in env:
                     env.pop(l, None)
                 continue
